@@ -11,7 +11,7 @@
      parser, whatever the wrapped ansi parser answers.
    Outside: every drawing primitive beyond put_pixel / bar_rect, fonts, buttons, icons, flood fill, all of IGS (search stage only). *)
 From Coq Require Import NArith ZArith List Bool.
-From IE Require Import Gen.RipGen Gen.RipLineGen Model.RipTok Model.BgiKernel Model.RipStream Model.BgiLine Model.RipStream2
+From IE Require Import Gen.RipGen Gen.RipLineGen Gen.IgsGen Model.IgsTok Model.IgsKernel Proofs.IgsTokProofs Proofs.IgsKernelProofs Model.RipTok Model.BgiKernel Model.RipStream Model.BgiLine Model.RipStream2
                        Proofs.RipTokProofs Proofs.BgiProofs Proofs.RipStreamProofs Proofs.RipVecProofs Proofs.BgiLineProofs Proofs.RipStream2Proofs.
 Import ListNotations.
 Local Open Scope Z_scope.
@@ -255,3 +255,143 @@ Example empty_pattern_panics : pat_at [] 0 = Panic SITE_REM_ZERO.
 Proof. reflexivity. Qed.
 Example line_cost_example : line_plots (0, 0, 640, 350) (bits16 65535) 3 0 0 1295 1295 = Ok 1049%nat.
 Proof. vm_compute. reflexivity. Qed.
+
+(* ================================================================================================================= *)
+(* Extension 2: the IGS tokenizer (Model/IgsTok.v: print_char, get_next_action, Loop::next_step) for EVERY executor and
+   fallback parser, and Extension 3: the IGS pixel kernel (Model/IgsKernel.v).                                          *)
+
+(* print_char: from every parser state satisfying IgsInv (the loop-header shape: parsed_numbers has 4 entries while the loop
+   command letter is read, 5 from the parameter count on, parsed_numbers[3] (the delay) is 0, loop_parameters and its last
+   group are non-empty while parameters are read; a running loop has at least one parameter group and delay 0), every
+   character, every executor, every fallback parser: the call returns with IgsInv again, or it panics in the i32 arithmetic of
+   Loop::next_step — the ONE known class (igs-panic:next_step).  In particular parsed_numbers[0..=4],
+   loop_parameters.last_mut().unwrap(), `% parameters.len()`, parameters[cur_parameter] are never out of range and the
+   thread::sleep(200 ms * delay) of next_step never sleeps. *)
+Theorem igs_tokenizer_safe : forall (X : Type) (exec : X -> N -> list Z -> str -> X * bool) (FS : Type) (fb_print : FS -> N -> FS * bool)
+  (w : iworld X FS) (ch : N), IgsInv (w_p X FS w) ->
+  match igs_step X exec FS fb_print w ch with
+  | Ok (w', _) => IgsInv (w_p X FS w')
+  | Panic s => s = SITE_IGS_LOOP_ARITH
+  end.
+Proof. exact igs_step_post. Qed.
+
+Theorem igs_next_action_safe : forall (X : Type) (exec : X -> N -> list Z -> str -> X * bool) (FS : Type) (w : iworld X FS),
+  IgsInv (w_p X FS w) ->
+  match igs_next_action X exec FS w with
+  | Ok (w', _) => IgsInv (w_p X FS w')
+  | Panic s => s = SITE_IGS_LOOP_ARITH
+  end.
+Proof. exact igs_next_action_post. Qed.
+
+(* every interleaving of characters and get_next_action calls, from the fresh parser *)
+Theorem igs_stream_safe : forall (X : Type) (exec : X -> N -> list Z -> str -> X * bool) (FS : Type) (fb_print : FS -> N -> FS * bool)
+  (x : X) (fs : FS) (es : list event),
+  match igs_run X exec FS fb_print {| w_p := ipars_new; w_x := x; w_fb := fs |} es with
+  | Ok w' => IgsInv (w_p X FS w')
+  | Panic s => s = SITE_IGS_LOOP_ARITH
+  end.
+Proof. intros. apply igs_run_post. exact ipars_new_inv. Qed.
+
+(* outside the known class: a loop whose header (from, to, step) and parameter values are at most 10^9 never panics, and stays
+   such a loop *)
+Theorem igs_loop_step_safe : forall (X : Type) (exec : X -> N -> list Z -> str -> X * bool) (x : X) (l : iloop), LoopOk l -> LoopSmall l ->
+  match next_step X exec x l with
+  | Ok (Some (_, l', _)) => LoopOk l' /\ LoopSmall l'
+  | Ok None => True
+  | Panic _ => False
+  end.
+Proof. exact next_step_small. Qed.
+
+(* stall side: with step >= 1 every executed step brings the loop counter at least `step` closer to its end (so a loop runs at
+   most |to - from| steps); with step = 0 the loop state does not change: get_next_action never returns None again *)
+Theorem igs_loop_progress : forall (X : Type) (exec : X -> N -> list Z -> str -> X * bool) x l x' l' ok,
+  next_step X exec x l = Ok (Some (x', l', ok)) -> 1 <= l_step l ->
+  0 < loop_measure l /\ loop_measure l' <= loop_measure l - l_step l /\ l_from l' = l_from l /\ l_to l' = l_to l /\ l_step l' = l_step l.
+Proof. exact next_step_progress. Qed.
+
+Theorem igs_loop_step0_stuck : forall (X : Type) (exec : X -> N -> list Z -> str -> X * bool) x l x' l' ok,
+  next_step X exec x l = Ok (Some (x', l', ok)) -> l_step l = 0 -> l' = l.
+Proof. exact next_step_stuck. Qed.
+
+(* an invariant of the executor is an invariant of the parser: the tokenizer only ever hands the executor state to exec *)
+Theorem igs_executor_invariant : forall (X : Type) (exec : X -> N -> list Z -> str -> X * bool) (FS : Type) (fb_print : FS -> N -> FS * bool)
+  (Q : X -> Prop), (forall x c ps s, Q x -> Q (fst (exec x c ps s))) ->
+  forall es w, Q (w_x X FS w) -> match igs_run X exec FS fb_print w es with Ok w' => Q (w_x X FS w') | Panic _ => True end.
+Proof. exact igs_run_Q. Qed.
+
+(* ---- IGS pixel kernel: ALL coordinates, ALL parameter values ---- *)
+Theorem igs_set_pixel_safe : forall e x y c, InvE e -> (c < 16)%N ->
+  exists scr, igs_set_pixel e x y c = Ok (e_upd_screen e scr) /\ length scr = length (e_screen e) /\ PensOk scr.
+Proof. exact igs_set_pixel_ok. Qed.
+
+Theorem igs_get_pixel_safe : forall e x y, InvE e -> exists v, igs_get_pixel e x y = Ok v.
+Proof. exact igs_get_pixel_ok. Qed.
+
+Theorem igs_fill_rect_safe : forall e x0 y0 x1 y1, InvE e -> exists e', igs_fill_rect e x0 y0 x1 y1 = Ok e' /\ SameE e e'.
+Proof. exact igs_fill_rect_ok. Qed.
+
+(* the loops of fill_rect run over the clipped rectangle: at most width x height fill_pixel calls whatever the coordinates *)
+Theorem igs_fill_rect_cost : forall e x0 y0 x1 y1, InvE e -> 0 <= igs_fill_rect_calls e x0 y0 x1 y1 <= e_w e * e_h e.
+Proof. exact IgsKernelProofs.igs_fill_rect_cost. Qed.
+
+Theorem igs_picture_safe : forall e, InvE e -> exists l, igs_picture e = Ok l /\ Z.of_nat (length l) = 4 * (e_w e * e_h e).
+Proof. exact igs_picture_ok. Qed.
+
+Theorem igs_kernel_safe : forall e c ps s, InvE e ->
+  match igs_exec e c ps s with XOk e' _ => InvE e' | XPanic _ => False | XUnmodelled => True end.
+Proof. exact igs_exec_ok. Qed.
+
+(* the whole IGS parser over the modelled executor, every interleaving of characters and get_next_action calls, every fallback
+   parser: no panic except the known loop arithmetic; the executor never panics; the picture is width x height x 4 bytes *)
+Theorem igs_stream_kernel_safe : forall (FS : Type) (fb_print : FS -> N -> FS * bool) (fs : FS) (es : list event),
+  match igs_run xstate igs_x FS fb_print (igs_world_init FS fs) es with
+  | Ok w' => IgsInv (w_p xstate FS w') /\
+             match w_x xstate FS w' with
+             | SOkE e => InvE e /\ exists px, igs_picture e = Ok px /\ Z.of_nat (length px) = 4 * (e_w e * e_h e)
+             | SPanicE _ => False
+             | SUnmodelledE => True
+             end
+  | Panic s => s = SITE_IGS_LOOP_ARITH
+  end.
+Proof. exact igs_stream_kernel_lemma. Qed.
+
+(* ---- non-vacuity / witnesses ---- *)
+Definition ex0 (u : unit) (_ : N) (_ : list Z) (_ : str) : unit * bool := (u, true).
+Definition igs_chars (cs : list N) : list event := map EChar cs.
+Definition igs_run0 (es : list event) := igs_run unit ex0 unit fb0 {| w_p := ipars_new; w_x := tt; w_fb := tt |} es.
+
+(* KNOWN igs-panic:next_step — "G#&100,200,2147483647,0,L,4,0,0,1,1:" : the step saturates at 2147483599 and `i += step` overflows *)
+Example igs_loop_arith_witness :
+  igs_run0 (igs_chars [71; 35; 38; 49; 48; 48; 44; 50; 48; 48; 44; 50; 49; 52; 55; 52; 56; 51; 54; 52; 55; 44; 48; 44; 76; 44; 52; 44; 48; 44; 48; 44; 49; 44; 49; 58]%N)
+  = Panic SITE_IGS_LOOP_ARITH.
+Proof. vm_compute. reflexivity. Qed.
+
+(* KNOWN igs-panic:next_step — "G#&1,3,1,0,L,4,+2147483647,0,0,0:" : `value += x` *)
+Example igs_loop_value_witness :
+  igs_run0 (igs_chars [71; 35; 38; 49; 44; 51; 44; 49; 44; 48; 44; 76; 44; 52; 44; 43; 50; 49; 52; 55; 52; 56; 51; 54; 52; 55; 44; 48; 44; 48; 44; 48; 58]%N)
+  = Panic SITE_IGS_LOOP_ARITH.
+Proof. vm_compute. reflexivity. Qed.
+
+(* KNOWN igs-loop-endless — "G#&0,3,0,0,L,4,0,0,1,1:" then 100 get_next_action calls: the loop is still there, unchanged *)
+Example igs_loop_step0_witness :
+  match igs_run0 (igs_chars [71; 35; 38; 48; 44; 51; 44; 48; 44; 48; 44; 76; 44; 52; 44; 48; 44; 48; 44; 49; 44; 49; 58]%N ++ repeat ENext 100) with
+  | Ok w => match i_loop (w_p unit unit w) with Some l => l_i l = 0 /\ l_step l = 0 /\ loop_running l = true | None => False end
+  | Panic _ => False
+  end.
+Proof. vm_compute. auto. Qed.
+
+(* a loop that draws: "G#&0,3,1,0,Z,4,x,0,x,5:" runs its first step inside print_char and two more on get_next_action *)
+Example igs_loop_runs :
+  match igs_run xstate igs_x unit fb0 (igs_world_init unit tt)
+          (igs_chars [71; 35; 38; 48; 44; 51; 44; 49; 44; 48; 44; 90; 44; 52; 44; 120; 44; 48; 44; 120; 44; 53; 58]%N ++ [ENext; ENext; ENext]) with
+  | Ok w => i_loop (w_p xstate unit w) = None /\ match w_x xstate unit w with SOkE e => nth_error (e_screen e) 2 = Some 0%N /\ nth_error (e_screen e) 3 = Some 1%N | _ => False end
+  | Panic _ => False
+  end.
+Proof. vm_compute. auto. Qed.
+
+Example igs_inv_initial : IgsInv ipars_new /\ InvE iexec_new.
+Proof. exact (conj ipars_new_inv iexec_new_inv). Qed.
+
+(* the checked sites fire when their guards are missing: parsed_numbers[4] of a four-element vector *)
+Example igs_nums4_panics : idx SITE_IGS_NUMS [0; 3; 1; 0] 4 = Panic SITE_IGS_NUMS.
+Proof. reflexivity. Qed.
